@@ -363,6 +363,19 @@ def hashmap_order(m, h):
         return idx[::-1]
     if mode == 'two':
         return idx if m.ctx.pick(2, 'hash-order') == 0 else idx[::-1]
+    if mode == 'cover' and n > 3:
+        # covering family for larger maps: identity, reverse, each entry moved to the front, each entry moved to the back
+        # (every pair of entries occurs in both relative orders; every entry occurs first and last)
+        k = m.ctx.pick(2 * n + 2, 'hash-order')
+        if k == 0:
+            return idx
+        if k == 1:
+            return idx[::-1]
+        k -= 2
+        if k < n:
+            return [idx[k]] + idx[:k] + idx[k + 1:]
+        k -= n
+        return idx[:k] + idx[k + 1:] + [idx[k]]
     # all permutations
     out = []
     rem = idx
